@@ -334,7 +334,7 @@ LATER = {
     "C05": " Every record is also executed on a LONG-LIVED Python emulator that has just executed, at the same address, a sibling of the instruction (same opcode and prefix, other operand bytes) - patched or reloaded code - and judged by the same clauses (impl tag pyl).",
     "C06": " Every other state is set up with the flags written once more one by one (FC, FZ after F) - the same architectural state reached through the flag aliases of either register file.",
     "C07": " The sibling history (the same bytes except the last one, executed at the same address just before) runs before the probe is ever executed on the long-lived core; the hidden-state variant also writes the flags one by one through the FC / FZ aliases.",
-    "C11": " CPU-facing buses: on the whole machines (CoreRuntime::step with its RuntimeBus layer, PCE500Emulator.step) the same load/store traces are produced by EXECUTED instructions - MV A / MV BA / three-byte MVP through the internal memory, poked into RAM and stepped - and judged by the same TraceMemory clauses (impl tags rscpu, pycpu). Growth beyond the bus objects: RomLoad.tla (how the device loaders of both machines place ROM / system images of eleven palette lengths from 0 to beyond 1 MiB, which ranges they protect, the reset vector; model-checked placement function, every loader run probed at about 35 boundary addresses incl. 2^24 aliases and judged by TLC) and ImemRegs.tla (the memory-mapped internal registers of six machine variants as a state machine: keyboard, LCC/SCR, USR/SSR, IMR/ISR, E-port, SIO; TLC behaviours replayed, random sequences trace-validated). Only the C11 sentences (ROM immutable, aliases canonical, plain internal RAM reads back) are verdicts there (keys RomLoad:/ImemRegs:); Python/Rust device-register differences are reported as DRIFT.",
+    "C11": " The probed alias structure must also be the DOCUMENTED one: two cells of the external space may share a class only if their canonical addresses (24-bit wrap, 32 KiB mirror of 0x80000-0xBFFFF where switched on) coincide (clause UndocumentedAlias - a window folded modulo its size is coherent but still an alias). CPU-facing buses: on the whole machines (CoreRuntime::step with its RuntimeBus layer, PCE500Emulator.step) the same load/store traces are produced by EXECUTED instructions - MV A / MV BA / three-byte MVP through the internal memory, poked into RAM and stepped - and judged by the same TraceMemory clauses (impl tags rscpu, pycpu). Growth beyond the bus objects: RomLoad.tla (how the device loaders of both machines place ROM / system images of eleven palette lengths from 0 to beyond 1 MiB, which ranges they protect, the reset vector; model-checked placement function, every loader run probed at about 35 boundary addresses incl. 2^24 aliases and judged by TLC) and ImemRegs.tla (the memory-mapped internal registers of six machine variants as a state machine: keyboard, LCC/SCR, USR/SSR, IMR/ISR, E-port, SIO; TLC behaviours replayed, random sequences trace-validated). Only the C11 sentences (ROM immutable, aliases canonical, plain internal RAM reads back) are verdicts there (keys RomLoad:/ImemRegs:); Python/Rust device-register differences are reported as DRIFT.",
     "C12": " PromptAfterUnmask carries the origin of the owed request (monitors: line at which each status bit last rose, line of the latest delivery): a request raised by a NEW event after the latest delivery (key pressed / other timer expiring while a handler runs; dedicated scripts) must be taken (tag fresh-request), only the stale shape is a recorded finding.",
     "C15": " On alternate steps the Python controller is observed through its snapshot API (get_snapshot(): registers and VRAM as the state capture and save path see them) instead of the chip objects; both views are judged by the same trace clauses.",
     "C16": " Ring-full scripts outside handlers (fast main timer, interrupts disabled, three keys held, nothing reads the queue) make the 8-slot event ring run exactly full and overflow on BOTH machines, every step being a snapshot point.",
